@@ -352,3 +352,79 @@ func pickSome(rng *rand.Rand, all []engine.WatchID, lo, hi int) []engine.WatchID
 	}
 	return all[:n]
 }
+
+// runFailingStop is part (e): the informer layer fails while a controller's watches are being
+// torn down (RemoveEventHandler or GetInformer returns an error for one kind). Whatever Stop
+// returns, the engine's report and the world must agree: a controller that is reported as not
+// running has been cancelled and has no live handler left, and a caller that retries Stop until
+// it returns nil ends up with exactly that.
+func runFailingStop(s *sink, c *kit.Ctx, i int, st *detStats) {
+	caseName := fmt.Sprintf("failing-stop/%d", i)
+	rng := c.Rng("failing-stop", i)
+	a := ctrlNames[rng.IntN(3)]
+	names := []string{a}
+	w := newWorld(worldPlain, &staticClient{items: map[schema.GroupKind][]map[string]any{}})
+	r0 := &recorder{w: w, g: -1}
+	_ = r0.Start(a, ncOK, false)
+	was := pickSome(rng, watchIDs(a), 2, 5)
+	_ = r0.StartWatches(a, was...)
+	// one or two kinds whose teardown fails once (or twice)
+	nf := 1 + rng.IntN(2)
+	failing := map[gvkT]bool{}
+	for k := 0; k < nf; k++ {
+		x := was[rng.IntN(len(was))]
+		failing[x.GVK] = true
+		if rng.IntN(2) == 0 {
+			w.fc.failNext(x.GVK, 1+rng.IntN(2), 0)
+		} else {
+			w.fc.failNext(x.GVK, 0, 1+rng.IntN(2))
+		}
+	}
+	agree := func(when string) {
+		if w.eng.IsRunning(a) {
+			return
+		}
+		live := 0
+		var rel []probedReg
+		for _, x := range was {
+			n, r := liveCount(w, a, x)
+			live += n
+			rel = append(rel, r...)
+		}
+		if live > 0 {
+			s.Violate("not-running-but-handlers-live", caseName, fmt.Sprintf("%s: IsRunning(%q) is false but %d of its event handlers are still registered", when, a, live),
+				map[string]any{"failing_kinds": fmt.Sprint(failing), "registrations": regSummaries(rel), "history": r0.recs})
+		}
+		for _, inc := range w.incarnations(a) {
+			if !waitStarted(inc) {
+				s.Inconclusive("a fake controller's Start was never called")
+				continue
+			}
+			if ctx := inc.ctx(); ctx != nil && ctx.Err() == nil {
+				s.Violate("not-running-but-context-live", caseName, fmt.Sprintf("%s: IsRunning(%q) is false but the controller's context is not cancelled", when, a), map[string]any{"history": r0.recs})
+			}
+		}
+	}
+	errs := 0
+	stopped := false
+	for try := 0; try < 6 && !stopped; try++ {
+		err := r0.Stop(a)
+		if err != nil {
+			errs++
+		} else {
+			stopped = true
+			if w.eng.IsRunning(a) {
+				s.Violate("running-after-successful-stop", caseName, fmt.Sprintf("Stop(%q) returned nil but IsRunning is still true", a), map[string]any{"history": r0.recs})
+			}
+		}
+		agree(fmt.Sprintf("after Stop attempt %d (err=%v)", try+1, err))
+	}
+	if !stopped {
+		s.Violate("stop-never-succeeds-after-transient-informer-fault", caseName, fmt.Sprintf("Stop(%q) still fails after the injected informer faults were used up", a), map[string]any{"history": r0.recs})
+	}
+	s.Eval(fmt.Sprintf("failing-stop|%s|%v|%v", a, widStrs(was), fmt.Sprint(failing)), errs > 0)
+	s.Count("failing_stop.cases", 1)
+	s.Count("failing_stop.stop_errors_observed", int64(errs))
+	_ = names
+	_ = st
+}
